@@ -64,11 +64,12 @@ class WatchedOptions(dict):
         return c
 
 
-def counter_invariant(sink, limit):
+def counter_invariant(sink, limit, allow_skip=True):
     """Monotone-counter monitor over the whole run (parent and watched copies together).
-    Returns None if fine else a description. Values start at 0, never decrease, never skip; a repeated
-    value is allowed only as a carry-back (written to a different dict than the previous write);
-    never exceeds limit+1 when limit>0."""
+    Returns None if fine else a description. Values start at 0 and never decrease; a repeated value is
+    allowed only as a carry-back (written to a different dict than the previous write); never exceeds
+    limit+1 when limit>0. Skips are tolerated by default: the data helpers evaluate under a plain
+    dict(options) copy the monitor cannot see, so a correct carry-back of that copy's count is a jump."""
     prev = None
     prev_id = None
     for n, (ident, v) in enumerate(sink):
@@ -80,7 +81,7 @@ def counter_invariant(sink, limit):
                 return f'counter went backwards {prev}->{v} at write {n} (dict {prev_id}->{ident})'
             if v == prev and ident == prev_id:
                 return f'counter repeated {v} on the same dict at write {n}'
-            if v > prev + 1:
+            if v > prev + 1 and not allow_skip:
                 return f'counter skipped {prev}->{v} at write {n}'
         if limit and limit > 0 and v > limit + 1:
             return f'counter {v} exceeds limit+1 ({limit + 1})'
